@@ -29,6 +29,7 @@ namespace InstNameUtils {
 
 Error decode(uint32_t name_value, InstStringifyOptions options, const char* string_table, String& output) noexcept;
 InstId find_instruction(const char* s, size_t len, const uint32_t* name_table, const char* string_table, const InstNameIndex& name_index) noexcept;
+InstId find_instruction_sorted(const char* s, size_t len, const uint32_t* name_table, const char* string_table, const uint16_t* sorted_id_table, size_t sorted_id_count) noexcept;
 uint32_t find_alias(const char* s, size_t len, const uint32_t* name_table, const char* string_table, uint32_t alias_name_count) noexcept;
 
 } // {InstNameUtils}
